@@ -300,6 +300,10 @@ PROPERTIES["C11"] = {
         M("c11_envelope_roundtrip", "d_c11", "envelope_roundtrip",
           "payload of 0..3 frames, each empty or 1 symbolic byte, incoming MORE flags arbitrary; DEALER->ROUTER and ROUTER->DEALER auto-framing",
           budget={"quick": 120, "thorough": 300}, required_covers=["c11.payload-starting-with-empty-frame"]),
+        M("c11_identity_announced", "d_c05", "pair_convergence",
+          "DEALER client announcing a routing id of 1, 254 or 255 symbolic bytes to a ROUTER engine (NULL mechanism), first 2 deliveries free: the identity reported with HandshakeComplete is exactly the announced one",
+          params={"quick": {"decisions": 2, "id_lens": [1, 254, 255], "mechs": [0]}, "thorough": {"decisions": 3, "id_lens": [1, 2, 254, 255], "mechs": [0]}},
+          budget={"quick": 300, "thorough": 900}, required_covers=["c05.pair.converged"]),
         M("c11_router_map_history", "d_c11", "router_map_history",
           {"quick": "all histories of 4 operations from {add_peer, update_peer_identity, remove_peer_by_read_pipe, remove_peer_by_identity} over 2 pipes x 2 identities (collisions and re-identification included)",
            "thorough": "same bound (5 operations would be 10^6 histories)"},
